@@ -357,7 +357,26 @@ def strides(facts, res):
             if cats != {"count"} or not covers(ret, "leadingDim"):
                 res.violation(R, f, size[0]["qname"], kind + ":extent", size[0]["l"][1], "extent must be the stride of the item count; found %s / %s" % (sorted(cats), ret))
             want_calls = 1
-        if len(calls) < want_calls:
+        # a stride that is the byte stride divided by the element size (directly, or through a constant `alignment / sizeof(T)`) is
+        # truncated - to zero for an element type larger than the alignment, which the block kinds accept: rows then alias each other
+        trunc = []
+        roots_ = [(fn_, tbf.body(fn_)) for fn_ in fns if tbf.body(fn_) is not None]
+        cl_ = [c_ for c_ in facts.classes if c_["name"] == kind]
+        for c_ in cl_:
+            for sm_ in c_.get("statics", []):
+                for ic_ in (sm_.get("c") or []):
+                    if ic_:
+                        roots_.append(({"qname": kind + "::" + sm_.get("name", "?"), "l": sm_.get("l", [0, 0])}, ic_))
+        for fn_, root in roots_:
+            for x in walk(root):
+                if x.get("k") == "BinaryOperator" and x.get("op") == "/" and any(y.get("k") == "UnaryExprOrTypeTraitExpr" or "sizeof" in (facts.ntext(y) or "")[:8] for y in walk(kids(x)[1])):
+                    num = facts.ntext(kids(x)[0])
+                    if re.search(r"Alignement|GetLeadingDim|leadingDim", num):
+                        trunc.append((fn_, x))
+        for fn_, x in trunc[:1]:
+            res.violation(R, tbf.rel(facts.path_of(x)), fn_["qname"], kind + ":stride-in-elements", x["l"][1],
+                          "`%s` turns a byte stride / the alignment into a number of elements by integer division: for an element type whose size does not divide it (larger than the alignment: the quotient is 0) the rows of the block alias each other and the viewers no longer address what GetMemorySizeFromNbItems laid out" % facts.ntext(x)[:70])
+        if len(calls) < want_calls and not trunc:
             raise AnalysisBroken("%s: %d GetLeadingDim sites found (%d confirmed by reading)" % (kind, len(calls), want_calls))
         # every place that multiplies by leadingDim uses the row (resp. item) index
         for fn in fns:
